@@ -13,6 +13,8 @@ Decided (E4 + finite tables, on the sparse operators and logical_* / elemfun / o
   SUBNEG  every return of sptensor.__sub__ that is built from the right operand alone (shortcut for an empty left operand) negates it
   FILL    sparse / sparse fills the complement classes as dense division does: x/0 -> signed infinity,
           0/x -> 0, 0/0 -> NaN
+  LOGIC   the dense logical_and / _or / _xor / _not (the sparse ones delegate to them for dense and scalar right-hand sides) apply the numpy
+          ufunc of the same name to the operands themselves or to their `!= 0` truth value — not to a sign test, which reads negative entries as false
   IX-cnt  result constructors receive equally many subscripts and values (symbolic row counts)
 Not decided: result values; NaN/inf placement beyond the provenance of the subscript sets; sparse / dense division
 at positions where both operands are zero (the code only visits stored entries).
@@ -253,11 +255,50 @@ def sub_shortcuts(prog: Program, res: Result) -> None:
         res.undecided("SUBNEG", fi.short, "a return of __sub__ built from the right operand alone is its negation", prog.loc(fi))
 
 
+def dense_logic(prog: Program, res: Result) -> None:
+    for op in ("logical_and", "logical_or", "logical_xor", "logical_not"):
+        fi = prog.func(f"tensor.tensor.{op}")
+        desc = f"np.{op} is applied to the operands as they are (truth value = `!= 0`)"
+        calls = [c for c in ast.walk(fi.node) if isinstance(c, ast.Call) and (dotted(c.func) or "").split(".")[0] in ("np", "numpy")
+                 and (dotted(c.func) or "").split(".")[-1].startswith("logical_")]
+        if not calls:
+            res.undecided("LOGIC", fi.short, desc, prog.loc(fi), "no numpy logical ufunc found")
+            continue
+        for c in calls:
+            base = dotted(c.func).split(".")[-1]
+            if base != op:
+                res.bad("LOGIC", fi.short, desc, prog.loc(fi, c), f"`{op}` computes np.{base}")
+                continue
+            verdict, why = "OK", ""
+            for a in c.args:
+                a = fi.resolve(a)
+                if isinstance(a, (ast.Name, ast.Attribute)):
+                    continue
+                if isinstance(a, ast.Compare) and len(a.ops) == 1:
+                    k = const(a.comparators[0])
+                    if isinstance(a.ops[0], ast.NotEq) and k == 0 and not isinstance(k, bool):
+                        continue
+                    if isinstance(a.ops[0], (ast.Gt, ast.Lt, ast.GtE, ast.LtE)):
+                        verdict, why = "BAD", (f"`{ast.unparse(a)}` is a sign / size test: entries on the other side of it count as false, dense and "
+                                               "sparse results (and the dense route of the sparse operator) disagree for negative values")
+                        break
+                if isinstance(a, ast.Call) and isinstance(a.func, ast.Attribute) and a.func.attr == "astype" and a.args \
+                        and ast.unparse(a.args[0]) in ("bool", "np.bool_") and isinstance(a.func.value, (ast.Name, ast.Attribute)):
+                    continue
+                verdict, why = ("UND", f"operand `{ast.unparse(a)[:50]}` is neither the raw operand nor its `!= 0` truth value") if verdict == "OK" else (verdict, why)
+            if verdict == "OK":
+                res.ok("LOGIC", fi.short, desc, prog.loc(fi, c), ast.unparse(c)[:60])
+            elif verdict == "BAD":
+                res.bad("LOGIC", fi.short, desc, prog.loc(fi, c), why)
+            else:
+                res.undecided("LOGIC", fi.short, desc, prog.loc(fi, c), why)
+
+
 def check(prog: Program, res: Result, tier: str) -> None:
     res.explanation = __doc__.split("\n\n", 1)[1]
     res.assumptions = ["row-helper contracts are trusted (C17 does not prove them)", "operands well-formed; tensor[subs] returns one value per row",
                        "the dense operators (tenfun) are the meaning"]
-    res.floors = {"IX-dom": 20, "IX-seq": 8, "IX-pair": 8, "SC": 6, "CONV": 4, "CNTPRED": 3, "ZERO": 1, "FILL": 3, "IX-cnt": 12, "IX-agg": 1}
+    res.floors = {"IX-dom": 20, "IX-seq": 8, "IX-pair": 8, "SC": 6, "CONV": 4, "CNTPRED": 3, "ZERO": 1, "FILL": 3, "IX-cnt": 12, "IX-agg": 1, "LOGIC": 4}
     names = {f"sptensor.sptensor.{o}" for o in OPS}
     for n in names:
         prog.func(n)
@@ -271,4 +312,5 @@ def check(prog: Program, res: Result, tier: str) -> None:
     zero_filter(prog, res)
     fill_table(prog, res)
     sub_shortcuts(prog, res)
+    dense_logic(prog, res)
     E.cnt_ctor(prog, res, sel)
